@@ -177,6 +177,18 @@ func Load(path, property string) ([]*Entry, error) {
 	return out, sc.Err()
 }
 
+// MatchAny reports whether one of the entries covers the signature (offline
+// curation: tools/kfmatch checks saved DISCOVER output against the file).
+func MatchAny(ents []*Entry, s Sig) bool {
+	for _, e := range ents {
+		if e.matches(s) {
+			return true
+		}
+	}
+
+	return false
+}
+
 func (e *Entry) matches(s Sig) bool {
 	if e.Sigs != nil && !e.Sigs[s.String()] {
 		return false
